@@ -3,10 +3,11 @@ CONSTANTS
   MaxReq = 2
   MaxTr = 1
   MaxResp = 2
+  CheckDeviations = {}
   Deviations = {"H1TrailerIdentity", "TrailerCorr", "NominatedToH2"}
   Emit = TRUE
   SampleMod = 40
   SampleRes = 1
   Shape = "quick"
-INVARIANTS EmitCase
+INVARIANTS TypeOK P_C13 EmitCase
 CHECK_DEADLOCK FALSE
